@@ -35,8 +35,9 @@ C18_Raises(x, ev, pos) ==
   (pos = Len(ev) + 1) =>
      /\ (x.conv \in {"raise_before", "raise_after"} /\ x.converter = "stub" /\ x.reached_convert) => (x.outcome = "raised" /\ x.exc = "ConverterBoom")
      /\ (x.conv \in {"ret_list", "ret_none", "ret_str"} /\ x.converter = "stub" /\ x.reached_convert) => (x.outcome = "raised" /\ x.exc = "TypeError")
-     /\ (x.converter = "default" /\ x.fault = 0) => (x.outcome = "raised" /\ x.exc = "FileNotFoundError")
+     /\ (x.converter = "default" /\ x.fault = 0 /\ ~x.fs_fired) => (x.outcome = "raised" /\ x.exc = "FileNotFoundError")
      /\ (x.fault # 0 /\ x.flavour = "base" /\ x.fault_fired) => (x.outcome = "raised" /\ x.exc = "InjectedBase")
+     /\ (x.fsfault # 0 /\ x.outcome = "raised") => x.exc = "InjectedOSError"
      /\ x.outcome \in {"raised", "returned"}
 Holds(name, x, ev, pos) ==
   CASE name = "C18_TargetTouchedLast" -> C18_TargetTouchedLast(x, ev, pos)
